@@ -139,6 +139,11 @@ func strFormat(L *LState) int {
 		case 'c', 'd', 'i', 'o', 'u', 'x', 'X', 'e', 'E', 'f', 'g', 'G':
 			// numeric conversions take a number or a string convertible to one (luaL_checknumber)
 			args[i] = L.CheckNumber(i + 2)
+		case 'q', 's':
+		default:
+			// anything else would be rendered by Go's fmt with its own verbs (%b %v %T ...) or as
+			// %!(NOVERB); lstrlib raises
+			L.RaiseError("invalid option '%%%s' to 'format'", string(verb))
 		}
 	}
 	L.Push(LString(fmt.Sprintf(str, args[:len(verbs)]...)))
